@@ -252,8 +252,11 @@ def check(run, replay=None):
         run.broken.append('listed PGNs without a translated setter / reference layout: %s' % missing)
     # the enumerators an application names (N2kWind_True_boat ...) against the published code table: the packing code cannot show a
     # renumbered enumeration, because it writes whatever value the name has (seed C15-17)
-    import json as _json
-    codes = _json.load(open(os.path.join(os.path.dirname(os.path.abspath(__file__)), 'ref_enum_codes.json')))['types']
+    # (the published table lives in coq/Spec/RefEnums.v, where C15_enumerator_codes proves it against the generated Gen/GenEnums.v; this
+    #  reading of the same table gives the concrete enumerator as replay when that obligation breaks)
+    spec = open(os.path.join(vlib.COQ, 'Spec', 'RefEnums.v')).read()
+    spec = spec[spec.index('Definition ref_enum_codes'):spec.index('Fixpoint assoc')]
+    codes = {t: {n: int(v) for n, v in re.findall(r'\("(\w+)", (-?\d+)\)', body)} for t, body in re.findall(r'\("(\w+)", \[(.*?)\]\)', spec)}
     now = {t: dict((n, v) for n, v in vals) for t, vals in META.get('enums', {}).items()}
     bad = ['%s::%s is %s in src/N2kTypes.h, the published code is %d' % (t, n, now.get(t, {}).get(n, 'missing'), v)
            for t, tab in sorted(codes.items()) for n, v in sorted(tab.items()) if now.get(t, {}).get(n) != v]
@@ -262,7 +265,7 @@ def check(run, replay=None):
         enum_replay = bool(replay) and any(l.startswith('ENUM ') for l in vlib.read_replay(replay))
         if not replay or enum_replay:
             run.violation(vlib.write_replay(run.pid, 'enumerators-%d' % run.seed, {'property': run.pid, 'family': 'enumerators', 'seed': run.seed,
-                          'failed': 'published enumerator codes (tools/ref_enum_codes.json) against the enumerator values clang reads from the source',
+                          'failed': 'published enumerator codes (coq/Spec/RefEnums.v) against the enumerator values clang reads from the source',
                           'what': 'enum:' + '; '.join(bad[:8])}, ['ENUM ' + b for b in bad]))
     if replay and any(l.startswith('ENUM ') for l in vlib.read_replay(replay)):
         return          # the replay of an enumerator finding is the table comparison above
